@@ -131,6 +131,12 @@ def rule_usage_errors(ctx):
                 if path.endswith("clap::errors::ErrorKind"):
                     ek = {str(v["discr"]): v["name"] for v in e["variants"]}
             oks = []
+            # locals holding (a move of) the clap error: `let e = match res { Ok(m) => return .., Err(e) => e }`
+            err_locals = {res}
+            for l2 in list(b.defs):
+                dd, _, _ = data_deps(b, {"l": l2, "p": []}, through_calls=False)
+                if res in dd and "clap::errors::Error" in b.local_ty(l2):
+                    err_locals.add(l2)
             for s in b.sites():
                 nd = s.node
                 if s.si is not None and nd["k"] == "assign" and nd["dst"]["l"] == 0 and nd["rv"]["k"] == "aggregate" and nd["rv"]["agg"].get("variant") == "Ok":
@@ -146,7 +152,7 @@ def rule_usage_errors(ctx):
                 kinds = None  # set of variant names the error kind can have on this path (None = untested)
                 undecided = False
                 for c in conds:
-                    if c.is_discr and c.place["l"] == res and c.place["p"] and "ErrorKind" in place_ty(b, c.place):
+                    if c.is_discr and c.place["l"] in err_locals and c.place["p"] and "ErrorKind" in place_ty(b, c.place):
                         if ek is None:
                             undecided = True
                             continue
@@ -833,7 +839,8 @@ def rule_errors_not_dropped(ctx):
                 elif dropped and not is_ok_then_returned and not good:
                     # listed exception
                     fn = prog.enclosing_fn(b)
-                    if nm == "fern::builders::Dispatch::apply" and all(re.search(r"Result::unwrap_or$", strip_generics(x.info[0]["decl"])) for x in dropped):
+                    if nm == "fern::builders::Dispatch::apply":
+                        # whatever the form of the drop (`unwrap_or(())`, `is_err()` with an empty arm, `.ok()`): installing the logger is the exception
                         r.ok(anchor, "listed exception: logger initialisation may fail silently (second initialisation in tests)", s.loc())
                     else:
                         r.violation(anchor, "swallowed:" + ",".join(sorted({strip_generics(x.info[0]["decl"]).rsplit("::", 1)[-1] for x in dropped})), "the Result of %s is swallowed by %s" % (nm, sorted({strip_generics(x.info[0]["decl"]) for x in dropped})), s.loc())
